@@ -310,6 +310,13 @@ def impl_builtin(case):
             ca, cb = capa_penalty_factory(case["cfam"])(n, p, k, scale=case["cscale"])
             pa, pb = capa_penalty_factory(case["pfam"])(n, p, psav.get_param_size(1), scale=case["pscale"])
             ca, cb, pa, pb = float(ca), [float(b) for b in cb], float(pa), [float(b) for b in pb]
+            # each case runs in its own process forked from a warmed-up but otherwise untouched parent, and the penalties above
+            # were taken first; now other detectors of the same shape and scale run in this process before the judged one —
+            # with penalty families that are built from one another — so module-level state they leave behind would show
+            if p >= 2 and core._bits(case, 8, 2):
+                for fam in ("combined", "intermediate"):
+                    MVCAPA(_mk_saving(case["saving"]), collective_penalty=fam, collective_penalty_scale=case["cscale"], point_penalty=fam,
+                           point_penalty_scale=case["pscale"], min_segment_length=m, max_segment_length=M).fit(X).predict(X)
         import pandas as pd
 
         wrap = (lambda a: pd.DataFrame(a)) if case.get("container") == "frame" else (lambda a: a)
@@ -440,6 +447,17 @@ def describe(c):
     return {k: c[k] for k in ("n", "p", "m", "M", "ca", "cb", "pa", "pb", "ignore") if k in c} | {"T[0][n]": c["T"][0][c["n"]]}
 
 
+def warm():
+    """load what the library imports lazily and run each detector once on a tiny fixed series, in the process the builtin
+    cases are forked from (first use costs about a second otherwise)"""
+    from skchange.anomaly_detectors import CAPA, MVCAPA
+
+    W = np.arange(24.0).reshape(12, 2) % 5
+    for fam in ("sparse", "dense", "intermediate", "combined"):
+        MVCAPA(collective_penalty=fam, point_penalty=fam).fit(W).predict(W)
+    CAPA().fit(W).predict(W)
+
+
 def run(chk: core.Check):
     tier = chk.tier
     N = {"quick": 2500, "thorough": 50000}[tier]
@@ -481,7 +499,8 @@ def run(chk: core.Check):
     rng = core.rng_for(chk.seed, "C03/capa")
     stream("capa-table", [as_capa(gen_case(rng, nmax)) for _ in range(N // 2)], impl_capa)
     rng = core.rng_for(chk.seed, "C03/builtin")
-    chk.run_stream("builtin", core.Gen(gen_builtin, rng, min(nmax, 16), N // 3), impl_builtin,
+    warm()
+    chk.run_stream("builtin", core.Gen(gen_builtin, rng, min(nmax, 16), N // 3), impl_builtin, fresh=True,
                    oracle=oracle_builtin, skip=skip_builtin, nontrivial=nontriv, site="CAPA/builtin",
                    describe=lambda c: {k: v for k, v in c.items() if k != "X"} | {"X[:4]": c["X"][:4]})
     return chk.finish()
